@@ -808,8 +808,12 @@ func (cc *Conn) handleReq(w *responsewriter.ResponseWriter[*Conn], req *pool.Mes
 	reqMid := req.MessageID()
 
 	// The same message ID can not be handled concurrently
-	// for deduplication to work
-	l := cc.msgIDMutex.Lock(reqMid)
+	// for deduplication to work. A copy that has to wait (the peer
+	// retransmits a request whose handler is still running, e.g. waiting
+	// for a request of its own on this connection) must not keep the read
+	// loop from processing what arrives next - the response that handler
+	// waits for included: the loop is replaced before the copy waits.
+	l := cc.msgIDMutex.lock(reqMid, cc.receivedMessageReader.TryToReplaceLoop)
 	defer l.Unlock()
 
 	if ok, err := cc.checkResponseCache(req, w); err != nil {
